@@ -67,6 +67,19 @@ def sums(rep, D, shard, Sum, tag):
     for (dom, cod), fs in groups.items():
         fs = fs[:4]
         unit = Sum([], dom, cod)
+        if idx % shard[1] == shard[0]:
+            # the empty sum (zero morphism) of every hom-set: absorbing for >> and @, with the composite's type
+            zi = '%s: zero=Sum([], %r, %r)' % (tag, dom, cod)
+            rep.case((tag, 'zero', repr(dom), repr(cod)))
+            eq(rep, 'sum.zero.dagger', lambda: unit[::-1], lambda: Sum([], cod, dom), zi)
+            for h in D[:40]:
+                ih = zi + ' h=%r' % (h,)
+                if h.dom == cod:
+                    eq(rep, 'sum.zero.then.left_operand', lambda: unit >> h, lambda: Sum([], dom, h.cod), ih)
+                if h.cod == dom:
+                    eq(rep, 'sum.zero.then.right_operand', lambda: h >> unit, lambda: Sum([], h.dom, cod), ih)
+                eq(rep, 'sum.zero.tensor.left_operand', lambda: unit @ h, lambda: Sum([], dom @ h.dom, cod @ h.cod), ih)
+                eq(rep, 'sum.zero.tensor.right_operand', lambda: h @ unit, lambda: Sum([], h.dom @ dom, h.cod @ cod), ih)
         for f, g in itertools.product(fs, fs):
             idx += 1
             if idx % shard[1] != shard[0]:
